@@ -30,6 +30,14 @@ class Context:
         self.prog = prog
         self.ck = ck
         self.res = Resolver(prog)
+        import os as _os
+
+        if _os.environ.get("VERIF_SA_NO_KWPOS") != "1" and not getattr(prog, "_kwpos_done", False):
+            from .kwargs import positionalise_keywords
+
+            prog.inline_stats["keywords_positioned"] = positionalise_keywords(prog, self.res)
+            prog._kwpos_done = True
+            self.res = Resolver(prog)  # nothing of the first resolver's caches is kept
         self.flow = ExcFlow(prog, self.res)
         self.flow.compute()
         self.terms = Terms(prog, self.res, self.flow, inline_depth=inline_depth)
